@@ -220,11 +220,27 @@ def _iter_concrete(native):
     return wrap
 
 
-for _target, _native in ((_copy.copy, _copy.copy), (_copy.deepcopy, _copy.deepcopy),
-                         (dict.copy, dict.copy), (list.copy, list.copy), (set.copy, set.copy)):
+for _target, _native in ((_copy.copy, _copy.copy), (_copy.deepcopy, _copy.deepcopy)):
     _p = _core._PATCH_REGISTRATIONS.get(_target)
     if _p is not None:
         _core._PATCH_REGISTRATIONS[_target] = _native_if_concrete(_p, _native)
+
+
+def _native_method(orig_patch, native, typ):
+    """dict.copy / list.copy / set.copy of a real container are shallow: run them natively whatever
+    the elements are (symbolic elements are just referenced); proxies keep CrossHair's method."""
+    def patched(self, *a, **kw):
+        with NoTracing():
+            if type(self) is typ or isinstance(self, typ):
+                return native(self, *a, **kw)
+        return orig_patch(self, *a, **kw)
+    return patched
+
+
+for _target, _typ in ((dict.copy, dict), (list.copy, list), (set.copy, set)):
+    _p = _core._PATCH_REGISTRATIONS.get(_target)
+    if _p is not None:
+        _core._PATCH_REGISTRATIONS[_target] = _native_method(_p, _target, _typ)
 
 _ch_set = _core._PATCH_REGISTRATIONS.get(set)
 _ch_frozenset = _core._PATCH_REGISTRATIONS.get(frozenset)
